@@ -347,6 +347,9 @@ func report(part *h.Partial, t *Tree, kind, cause string, o *Obs, what string) {
 		hs = append(hs, hv)
 	}
 	sort.Slice(hs, func(i, j int) bool {
+		if (o.Text[hs[i]] != "") != (o.Text[hs[j]] != "") {
+			return o.Text[hs[i]] != ""
+		}
 		if o.Count[hs[i]] != o.Count[hs[j]] {
 			return o.Count[hs[i]] > o.Count[hs[j]]
 		}
